@@ -65,6 +65,9 @@ BLANKS = ['  ', ' ', '\n  \n', '\n', '\t']
 def tricky_values(idx, blank=False):
     """The extra objects (property q) of event idx; none for every other event."""
     pool = BLANKS if blank else TRICKY
+    if not blank and idx % 4 == 0:
+        # two objects of one property that are not neighbours in the document (another property in between)
+        return ['first%d' % idx, pool[(idx * 5) % len(pool)]]
     return [pool[(idx * 5) % len(pool)]] if (idx % 2 == 0 or blank) else []
 
 
@@ -81,11 +84,14 @@ def event_xml(idx, typ, source, flavour='ok', big=0, blank=False):
     if flavour == 'ok' and not big and reserved_values(idx):
         etree.SubElement(props, '{%s}event' % NS).text = 'e%d' % idx
         etree.SubElement(props, '{%s}ontology' % NS).text = 'o%d' % idx
+    split = flavour == 'ok' and not big and len(tricky_values(idx, blank)) > 1
+    if split:
+        etree.SubElement(props, '{%s}q' % NS).text = tricky_values(idx, blank)[0]
     etree.SubElement(props, '{%s}p' % NS).text = 'v%d' % idx
     if big:
         etree.SubElement(props, '{%s}q' % NS).text = 'x' * big
     elif flavour == 'ok':
-        for v in tricky_values(idx, blank):
+        for v in tricky_values(idx, blank)[1 if split else 0:]:
             etree.SubElement(props, '{%s}q' % NS).text = v
     if flavour == 'undeclared':
         etree.SubElement(props, '{%s}zz' % NS).text = 'x'
